@@ -45,13 +45,25 @@ _built = {}
 
 
 def build_harness(binary, race=False):
-    """Rebuilds one conformance binary (harness/cmd/<binary>) against /repo's current working tree (tag verif)."""
-    out = os.path.join(HARNESS, "bin", binary + ("-race" if race else ""))
+    """Rebuilds one conformance binary (harness/cmd/<binary>) against the current working tree of /repo
+    (or of $VERIF_REPO, used only to try mutations in a scratch worktree), tag verif."""
+    alt = os.path.abspath(REPO) != "/repo"
+    tag = ("-alt" + hashlib.sha1(os.path.abspath(REPO).encode()).hexdigest()[:8]) if alt else ""
+    out = os.path.join(HARNESS, "bin", binary + tag + ("-race" if race else ""))
     if _built.get(out) and os.path.exists(out):
         return out
     t0 = time.time()
-    shutil.copyfile(os.path.join(REPO, "go.sum"), os.path.join(HARNESS, "go.sum"))
     cmd = ["go", "build", "-tags", "verif", "-o", out]
+    if alt:
+        mod = os.path.join(HARNESS, "go%s.mod" % tag)
+        with open(os.path.join(HARNESS, "go.mod")) as f:
+            txt = f.read().replace("=> /repo", "=> " + os.path.abspath(REPO))
+        with open(mod, "w") as f:
+            f.write(txt)
+        shutil.copyfile(os.path.join(REPO, "go.sum"), os.path.join(HARNESS, "go%s.sum" % tag))
+        cmd.append("-modfile=" + mod)
+    else:
+        shutil.copyfile(os.path.join(REPO, "go.sum"), os.path.join(HARNESS, "go.sum"))
     if race:
         cmd.append("-race")
     cmd.append("./cmd/" + binary)
@@ -60,7 +72,7 @@ def build_harness(binary, race=False):
         log(p.stdout[-4000:], p.stderr[-8000:])
         raise NotAVerdict("harness build failed: " + binary)
     _built[out] = True
-    log("[build] %s%s built in %.1fs" % (binary, " (race)" if race else "", time.time() - t0))
+    log("[build] %s%s built in %.1fs (repo %s)" % (binary, " (race)" if race else "", time.time() - t0, REPO))
     return out
 
 
@@ -86,7 +98,7 @@ def tlc(module, cfg, workers=None, timeout=900, simulate=None, depth=None, seed=
     res = TLCResult()
     cfgp = cfg if os.path.isabs(cfg) else os.path.join(SPEC, "cfg", cfg)
     cmd = ["timeout", str(timeout), "tlc", "-workers", str(workers), "-metadir", md,
-           "-config", cfgp]
+           "-noGenerateSpecTE", "-config", cfgp]
     if simulate:
         cmd += ["-simulate", simulate]
     if depth:
